@@ -82,9 +82,11 @@ Idle == /\ \A p \in Producers : pend[p] = NoCall
 
 (* ---- generator: all interleavings on the abstract object ---- *)
 GenCall(th) == /\ ncalls < MaxCalls /\ \E k \in {"N", "E", "C"} : Call(th, k, ncalls + 1)
+GenIdle == ~idle /\ Idle
 GenStart(th) == ndeliv < Len(received) /\ DeliverStart(th, received[ndeliv + 1].k, received[ndeliv + 1].v)
 Next == \/ \E th \in Producers : GenCall(th) \/ Lin(th) \/ Ret(th)
         \/ \E th \in LoopThreads : GenStart(th) \/ \E r \in BOOLEAN : DeliverEnd(th, r)
+        \/ GenIdle
 Spec == Init /\ [][Next]_vars
 
 (* ---- the property as invariants of the abstract object ---- *)
